@@ -691,7 +691,7 @@ class MacroProgram(ElementProgram):
         self._interpolation.pop()
         self._translated.pop()
 
-        if use_macro:
+        if use_macro or extend_macro:
             self._use_macro.pop()
 
         # The fallback is part of the named translation block (if any)
